@@ -60,7 +60,7 @@ var specs = map[string]*propSpec{
 		ID: "C08", Title: "concurrent requests do not interfere",
 		TestPkg: "cmd/glyph", HarnessDir: "C08", HarnessExtra: []string{"glyphcommon"},
 		Weave: []weave.PkgConfig{
-			{Path: "./cmd/glyph", Touch: true},
+			{Path: "./cmd/glyph", Touch: true, TouchLocalMaps: true},
 			{Path: "./pkg/server", Touch: true},
 			{Path: "./pkg/websocket"},
 			{Path: "./pkg/interpreter", Touch: true, L1: []string{"(*Interpreter).EvaluateExpression", "(*Interpreter).ExecuteStatement"}},
